@@ -301,7 +301,7 @@ def spec_fingerprint(spec):
         if isinstance(x, (list, tuple)):
             return [rnd(y) for y in x]
         if isinstance(x, dict):
-            return {k: rnd(v) for k, v in x.items() if k != "truth"}
+            return {k: rnd(v) for k, v in x.items() if k not in ("truth", "truth_by_id")}
         if isinstance(x, np.ndarray):
             return rnd(x.tolist())
         if isinstance(x, (np.floating,)):
@@ -315,3 +315,186 @@ def spec_fingerprint(spec):
 
 def fingerprint(obj):
     return spec_fingerprint(obj)
+
+
+# --------------------------------------------------------------------------- #
+# cluster graphs: hostile *structure* (multi-edges, reversed edges, mixed dimensions, custom edges,
+# shuffled vertex lists, weird ids, several fixed vertices) with mild values, well-posed by construction
+# --------------------------------------------------------------------------- #
+def cluster_graph(rng, kinds=None, size=(2, 6), noise_t=0.05, noise_r=0.03, init_t=0.2, init_r=0.1, cond=100.0,
+                  custom=True, landmarks=True, multi=True, reverse=True, shuffle=True, weird_ids=True,
+                  extra_fixed=True, numeric_custom=None, scale=4.0, cross=None, fix_mode=None):
+    """Returns (spec, labels).  Every cluster (= connected component before landmark links) holds one fixed vertex,
+    unless fix_mode == 'first' (then only the first listed vertex is fixed and there is a single pose cluster)."""
+    labels = set()
+    if kinds is None:
+        fam = rng.choice(["single", "2d", "3d", "all"], p=[0.35, 0.25, 0.2, 0.2])
+        if fam == "single":
+            kinds = [str(rng.choice(R.KINDS))]
+        elif fam == "2d":
+            kinds = ["se2", "r2"] if rng.random() < 0.7 else ["se2", "se2"]
+        elif fam == "3d":
+            kinds = ["se3", "r3"] if rng.random() < 0.7 else ["se3", "se3"]
+        else:
+            kinds = [str(x) for x in rng.permutation(list(R.KINDS))[: int(rng.integers(2, 5))]]
+    if len(set(kinds)) > 1:
+        labels.add("mixed_dimensions")
+    used = set()
+    vertices = []
+    truth = {}
+    edges = []
+    next_id = [0]
+
+    def new_id():
+        if weird_ids:
+            v, c = vertex_id(rng, used)
+            labels.add("id:" + c)
+            return v
+        next_id[0] += 1
+        used.add(next_id[0])
+        return next_id[0]
+
+    def cr():
+        return (rng.random() < 0.6) if cross is None else cross
+
+    def odo(k, a, b):
+        z = R.vals(R.ominus(k, truth[b], truth[a]))
+        z = perturb(rng, k, z, noise_t, noise_r)
+        if k == "se2":
+            z[2] = R.val(R.wrap(z[2]))
+        return {"type": "odo", "ids": [a, b], "info": spd(rng, R.CD[k], cond, cr()).tolist(), "est": z, "est_kind": k}
+
+    clusters = []
+    for k in kinds:
+        n = int(rng.integers(size[0], size[1] + 1))
+        ids = []
+        for j in range(n):
+            vid = new_id()
+            t = mild_pose(rng, k, scale)
+            truth[vid] = t
+            ids.append(vid)
+            vertices.append({"id": vid, "kind": k, "pose": perturb(rng, k, t, init_t, init_r), "fixed": False})
+        clusters.append((k, ids))
+        # spanning tree of odometry edges, random orientation
+        for j in range(1, n):
+            a = ids[int(rng.integers(0, j))]
+            b = ids[j]
+            if reverse and rng.random() < 0.5:
+                a, b = b, a
+            edges.append(odo(k, a, b))
+        # extra edges: loops and parallel edges
+        for _ in range(int(rng.integers(0, 3))):
+            if n < 2:
+                break
+            a, b = [ids[int(x)] for x in rng.choice(n, 2, replace=False)]
+            edges.append(odo(k, a, b))
+        if multi and n >= 2 and rng.random() < 0.6:
+            e0 = edges[int(rng.integers(len(edges)))]
+            if e0["type"] == "odo":
+                for _ in range(int(rng.integers(1, 4))):
+                    a, b = e0["ids"]
+                    if reverse and rng.random() < 0.5:
+                        a, b = b, a
+                    kk = e0["est_kind"]
+                    edges.append(odo(kk, a, b))
+                    labels.add("parallel_edges")
+    # landmarks observed from pose clusters
+    if landmarks:
+        for (k, ids) in list(clusters):
+            if rng.random() < 0.6:
+                kp = R.POINT_OF[k]
+                for _ in range(int(rng.integers(1, 3))):
+                    lid = new_id()
+                    L = mild_pose(rng, kp, scale)
+                    truth[lid] = L
+                    vertices.append({"id": lid, "kind": kp, "pose": [x + rng.normal() * init_t for x in L], "fixed": False})
+                    nobs = int(rng.integers(1, min(3, len(ids)) + 1))
+                    for a in rng.choice(len(ids), nobs, replace=False):
+                        a = ids[int(a)]
+                        off = mild_pose(rng, k, 0.5) if rng.random() < 0.8 else R.identity(k)
+                        z = R.vals(R.act(k, R.inv(k, R.oplus(k, truth[a], off)), L))
+                        z = [x + rng.normal() * noise_t for x in z]
+                        edges.append({"type": "lm", "ids": [a, lid], "info": spd(rng, R.CD[kp], cond).tolist(), "est": z, "est_kind": kp,
+                                      "off": off, "off_kind": k, "off_id": 0})
+                        labels.add("landmark_edges")
+                        if k in ("se2", "se3") and off != R.identity(k):
+                            labels.add("landmark_offset_rotated")
+    # custom edges
+    if custom:
+        for (k, ids) in clusters:
+            n = len(ids)
+            for _ in range(int(rng.integers(0, 3))):
+                numeric = bool(rng.random() < 0.5) if numeric_custom is None else numeric_custom
+                c = rng.choice(["prior", "posprior", "distance", "relpose", "midpoint", "constvel"])
+                nt = {"r2": 2, "r3": 3, "se2": 2, "se3": 3}[k]
+                if c == "prior":
+                    a = ids[int(rng.integers(n))]
+                    z = perturb(rng, k, truth[a], noise_t, noise_r)
+                    edges.append({"type": "custom:prior", "ids": [a], "info": spd(rng, R.CD[k], cond, cr()).tolist(), "est": z, "est_kind": k, "numeric": numeric})
+                    labels.add("custom_unary")
+                elif c == "posprior":
+                    a = ids[int(rng.integers(n))]
+                    z = [x + rng.normal() * noise_t for x in truth[a][:nt]]
+                    edges.append({"type": "custom:posprior", "ids": [a], "info": spd(rng, nt, cond).tolist(), "est": z, "est_kind": "array", "numeric": numeric})
+                    labels.add("custom_unary")
+                elif c == "distance" and n >= 2:
+                    a, b = [ids[int(x)] for x in rng.choice(n, 2, replace=False)]
+                    d = math.sqrt(sum((x - y) ** 2 for x, y in zip(truth[a][:nt], truth[b][:nt]))) + rng.normal() * noise_t
+                    if d > 0.2:
+                        edges.append({"type": "custom:distance", "ids": [a, b], "info": [[float(10.0 ** rng.uniform(-1, 2))]], "est": [d], "est_kind": "scalar", "numeric": numeric})
+                        labels.add("custom_binary")
+                elif c == "relpose" and n >= 2:
+                    a, b = [ids[int(x)] for x in rng.choice(n, 2, replace=False)]
+                    e0 = odo(k, a, b)
+                    e0.update({"type": "custom:relpose", "numeric": numeric})
+                    edges.append(e0)
+                    labels.add("custom_binary")
+                elif c == "midpoint" and n >= 3:
+                    a, b, c3 = [ids[int(x)] for x in rng.choice(n, 3, replace=False)]
+                    z = [truth[b][i] - 0.5 * (truth[a][i] + truth[c3][i]) + rng.normal() * noise_t for i in range(nt)]
+                    edges.append({"type": "custom:midpoint", "ids": [a, b, c3], "info": spd(rng, nt, cond).tolist(), "est": z, "est_kind": "array", "numeric": numeric})
+                    labels.add("custom_ternary")
+                elif c == "constvel" and n >= 3:
+                    a, b, c3 = [ids[int(x)] for x in rng.choice(n, 3, replace=False)]
+                    ab = R.ominus(k, truth[b], truth[a])
+                    bc = R.ominus(k, truth[c3], truth[b])
+                    cc = R.vals(R.compact(k, R.ominus(k, ab, bc)))
+                    z = [x + rng.normal() * noise_t * 0.2 for x in cc]
+                    if k == "se3" and R.val(R.ominus(k, ab, bc)[6]) < 0.3:
+                        continue
+                    if k == "se2" and abs(cc[2]) > 2.5:
+                        continue
+                    edges.append({"type": "custom:constvel", "ids": [a, b, c3], "info": spd(rng, R.CD[k], cond, cr()).tolist(), "est": z, "est_kind": "array", "numeric": numeric})
+                    labels.add("custom_ternary")
+                if numeric:
+                    labels.add("custom_numeric_jacobian")
+    # fixed vertices
+    vmap = {v["id"]: v for v in vertices}
+    if fix_mode == "first":
+        pass
+    else:
+        for (k, ids) in clusters:
+            vmap[ids[int(rng.integers(len(ids)))]]["fixed"] = True
+        if extra_fixed and rng.random() < 0.5:
+            for v in vertices:
+                if rng.random() < 0.2:
+                    v["fixed"] = True
+            labels.add("several_fixed_per_cluster")
+    if shuffle:
+        perm = rng.permutation(len(vertices))
+        vertices = [vertices[int(i)] for i in perm]
+        eperm = rng.permutation(len(edges))
+        edges = [edges[int(i)] for i in eperm]
+        labels.add("shuffled_lists")
+    if fix_mode == "first":
+        # the first *listed* vertex must belong to the (single) pose cluster for well-posedness
+        k0, ids0 = clusters[0]
+        j = next(i for i, v in enumerate(vertices) if v["id"] in ids0)
+        vertices[0], vertices[j] = vertices[j], vertices[0]
+    spec = {"vertices": vertices, "edges": edges, "truth_by_id": {str(k): v for k, v in truth.items()}}
+    # label: edges naming their vertices high-index-first (w.r.t. list order)
+    pos = {v["id"]: i for i, v in enumerate(vertices)}
+    nrev = sum(1 for e in edges if len(e["ids"]) >= 2 and pos[e["ids"][0]] > pos[e["ids"][1]])
+    if nrev:
+        labels.add("edge_high_index_first")
+    return spec, labels
